@@ -16,12 +16,13 @@ Record SOps := mkSOps {
   sadd : Sc -> Sc -> Sc; ssub : Sc -> Sc -> Sc; smul : Sc -> Sc -> Sc; sdiv : Sc -> Sc -> Sc;
   sopp : Sc -> Sc;
   ssqrt : Sc -> Sc;
+  smax : Sc -> Sc -> Sc;      (* Python max(a, b): b if b > a else a *)
   sgt0 : Sc -> bool;
   seq0 : Sc -> bool }.
 
 Arguments s0 {_}. Arguments s1 {_}. Arguments s2 {_}. Arguments s4 {_}.
 Arguments sadd {_}. Arguments ssub {_}. Arguments smul {_}. Arguments sdiv {_}.
-Arguments sopp {_}. Arguments ssqrt {_}. Arguments sgt0 {_}. Arguments seq0 {_}.
+Arguments sopp {_}. Arguments ssqrt {_}. Arguments smax {_}. Arguments sgt0 {_}. Arguments seq0 {_}.
 
 (* ------------------------------------------------------------------------- *)
 (* GradientMethod                                                              *)
@@ -49,13 +50,15 @@ Section GradientMethod.
     let x := if accelerate then gm_z st else gm_x st in              (* copyto(self.x, self.z) *)
     let x := vadd x (vscale (sopp alpha) (gradf x)) in               (* axpy(self.x, -alpha, gradf(self.x)) *)
     let x := match proxg with Some p => p alpha x | None => x end in (* copyto(self.x, proxg(alpha, self.x)) *)
-    let tz :=
-      if accelerate then
-        let t_old := gm_t st in
-        let t := t_next t_old in
-        (t, vadd x (vscale (sdiv (ssub t_old s1) t) (vsub x x_old))) (* z = x + ((t_old-1)/t) * (x - x_old) *)
-      else (gm_t st, gm_z st) in
-    mkGM x (snd tz) (fst tz) (sdiv (vnorm (vsub x x_old)) alpha).     (* resid = norm(x - x_old) / alpha *)
+    let resid := sdiv (vnorm (vsub x x_old)) alpha in                (* resid = norm(x - x_old) / alpha *)
+    if accelerate then
+      (* resid = max(resid, norm(x - z) / alpha), z still the point the step was taken from *)
+      let resid := smax resid (sdiv (vnorm (vsub x (gm_z st))) alpha) in
+      let t_old := gm_t st in
+      let t := t_next t_old in
+      let z := vadd x (vscale (sdiv (ssub t_old s1) t) (vsub x x_old)) in   (* z = x + ((t_old-1)/t) * (x - x_old) *)
+      mkGM x z t resid
+    else mkGM x (gm_z st) (gm_t st) resid.
 
   Fixpoint gm_iter (accelerate : bool) (alpha : S) (proxg : option (S -> V -> V)) (n : nat) (st : gm_state) : gm_state :=
     match n with
